@@ -1,6 +1,7 @@
 package p2plab
 
 import (
+	"bytes"
 	"context"
 	"errors"
 	"fmt"
@@ -41,6 +42,10 @@ type NodeOpts struct {
 	// durations up to Jitter (schedule perturbation).
 	Jitter     time.Duration
 	JitterSeed uint64
+	// WatchIDs / HandlerDelay: see AuditCM.Watch and AuditCM.HandlerDelay; a
+	// non-zero HandlerDelay also delays every mutating manager call.
+	WatchIDs     []types.BlockID
+	HandlerDelay time.Duration
 	// KeepLog keeps the tail of the syncer's debug log in memory (diagnosis of
 	// stalls; not used by any oracle).
 	KeepLog bool
@@ -81,6 +86,9 @@ type logRing struct {
 }
 
 func (l *logRing) Write(p []byte) (int, error) {
+	if bytes.Contains(p, []byte("no peers to connect to")) {
+		return len(p), nil // periodic noise
+	}
 	l.mu.Lock()
 	if len(l.lines) >= l.max {
 		copy(l.lines, l.lines[1:])
@@ -207,6 +215,16 @@ func NewNode(o NodeOpts) (*Node, error) {
 	n.ACM = &AuditCM{Manager: cm, Mon: n.Mon}
 	if o.Jitter > 0 {
 		n.ACM.Perturb = n.jitter
+	}
+	if len(o.WatchIDs) > 0 || o.HandlerDelay > 0 {
+		n.ACM.Watch = map[types.BlockID]bool{}
+		for _, id := range o.WatchIDs {
+			n.ACM.Watch[id] = true
+		}
+		n.ACM.HandlerDelay = o.HandlerDelay
+		if d := o.HandlerDelay; d > 0 && o.Jitter == 0 {
+			n.ACM.Perturb = func() { time.Sleep(d) }
+		}
 	}
 	l, err := net.Listen("tcp", net.JoinHostPort(o.IP, "0"))
 	if err != nil {
